@@ -12,6 +12,8 @@ directly into the registers of a real sketch, for every precision 7..16:
   (d) register arrays reached from real key sets at loads 0.01..100 keys/register
   (e) three-rank mixtures
   (f) pairs of states with equal register sums, queried back to back on one object
+  (g) one state per estimator branch written / queried through the two handles of a
+      shared-memory block (owner and attached view), in all four write/read combinations
 Oracle: reference estimator M6 (vf/models/hll.py) computed with math.fsum from
 the tables shipped in hll_constants.py, relative 1e-9; within 1e-9 of a switch
 point either branch is accepted.  Table sanity: raw_estimate rows strictly
@@ -53,7 +55,25 @@ def ref_values(hist, p, tab):
     return out, branch
 
 
-def check_hist(sub, sk, p, tab, hist, fam, stats, shuffle=False):
+def make_handles(p):
+    from ..common import quiet_shm
+
+    quiet_shm()
+    owner = SK.make("hll", p, 0, shared_memory=True)
+    view = SK.make("hll", p, 0)
+    view.attach_existing_shm(owner.shm.name)
+    return owner, view
+
+
+def handle_hists(p, thr):
+    """One register state per estimator branch (+ the empty sketch)."""
+    m = 1 << p
+    vc = crossing_V(p, thr)
+    return [{0: m}, {0: min(m - 1, vc + 40), 1: m - min(m - 1, vc + 40)},
+            {0: max(1, vc - 40), 2: m - max(1, vc - 40)}, {1: m // 2, 2: m - m // 2}, {6: m}]
+
+
+def check_hist(sub, sk, p, tab, hist, fam, stats, shuffle=False, handle=None, reader=None):
     m = 1 << p
     reg = sk.registers
     pos = 0
@@ -70,17 +90,18 @@ def check_hist(sub, sk, p, tab, hist, fam, stats, shuffle=False):
     stats["branches"].add((p, branch))
     prev = list(stats.get("prev", []))
     stats["prev"] = (prev + [[sorted(hist.items()), shuffle]])[-2:]
+    extra = {"handle": handle} if handle else {}
     try:
-        got = float(sk.query())
+        got = float((reader if reader is not None else sk).query())
     except Exception as e:
-        sub.violation({"p": p, "hist": sorted(hist.items()), "shuffle": shuffle, "prev": prev},
+        sub.violation(dict({"p": p, "hist": sorted(hist.items()), "shuffle": shuffle, "prev": prev}, **extra),
                       f"p={p} histogram {sorted(hist.items())[:4]} ({fam}): query() raised "
                       f"{type(e).__name__}: {e}")
         return
     ok = any(abs(got - e) <= REL * max(1.0, abs(e)) for e in exp)
     if not ok:
         sub.violation(
-            {"p": p, "hist": sorted(hist.items()), "shuffle": shuffle, "prev": prev},
+            dict({"p": p, "hist": sorted(hist.items()), "shuffle": shuffle, "prev": prev}, **extra),
             f"p={p} histogram {sorted(hist.items())[:4]} ({fam}, branch {branch}): query() = "
             f"{got!r}, HLL++ estimator = {exp[0]!r}",
         )
@@ -175,6 +196,17 @@ def task(arg):
                 for a_, b_ in ((h1, h2), (h2, h1), (h1, h2)):
                     check_hist(sub, sk, p, tab, a_, "f-same-sum", stats)
                     check_hist(sub, sk, p, tab, b_, "f-same-sum", stats)
+        # (g) the same estimator through every handle of a shared-memory block: states are
+        #     written through one handle and queried through the other (owner <-> attached view)
+        owner, view = make_handles(p)
+        for hist in handle_hists(p, thr):
+            check_hist(sub, view, p, tab, hist, "g-view", stats, handle="view")
+            check_hist(sub, owner, p, tab, hist, "g-owner", stats, handle="owner")
+            check_hist(sub, view, p, tab, hist, "g-write-view-read-owner", stats,
+                       handle="view>owner", reader=owner)
+            check_hist(sub, owner, p, tab, hist, "g-write-owner-read-view", stats,
+                       handle="owner>view", reader=view)
+        del view, owner
         # (d) real key sets
         loads = (0.01, 0.1, 0.5, 1, 3, 10) + ((30, 100) if (p <= 12 or tier == "thorough") else ())
         real = SK.make("hll", p, 2**63 + seed)
@@ -254,11 +286,20 @@ def replay(case):
 
     sub = SubReporter(max_violations=10)
     sk = SK.make("hll", p, 0)
+    reader = None
+    if case.get("handle"):
+        owner, view = make_handles(p)
+        h = case["handle"]
+        sk = view if h.startswith("view") else owner
+        if ">" in h:
+            reader = owner if h.endswith("owner") else view
     hist = {int(r): int(c) for r, c in case["hist"]}
     stats = {"n": 0, "branches": set()}
     # the same object was queried on other register states just before: replay those too
     for ph, psh in case.get("prev", []):
-        check_hist(sub, sk, p, tab, {int(r): int(c) for r, c in ph}, "replay-prev", stats, shuffle=psh)
+        check_hist(sub, sk, p, tab, {int(r): int(c) for r, c in ph}, "replay-prev", stats, shuffle=psh,
+                   reader=reader)
     sub.violations = []
-    check_hist(sub, sk, p, tab, hist, "replay", stats, shuffle=case.get("shuffle", False))
+    check_hist(sub, sk, p, tab, hist, "replay", stats, shuffle=case.get("shuffle", False),
+               reader=reader)
     return bool(sub.violations), {"problems": [m_ for _, m_ in sub.violations]}
